@@ -524,6 +524,19 @@ def run_one(ctl: explorer.Ctl, cfg: Dict[str, Any]) -> Dict[str, Any]:
 
 
 # ---------------------------------------------------------------------------
+def _pick(part, cfgs):
+    out = []
+    for i in sorted({0, len(cfgs) // 2, len(cfgs) - 1}):
+        c = dict(cfgs[i])
+        if "prefix" in c:
+            c["prefix"] = [op_name(OPS_FULL[j]) for j in c["prefix"]]
+            c["last"] = f"each of the {len(OPS_SMALL) if c['last'] == 'small' else len(OPS_FULL)} operations"
+        if "form" in c:
+            c["form"] = INVALID_FORMS[c["form"]][0]
+        out.append({"part": part, "index": i, "case": c})
+    return out
+
+
 def _idx(op) -> int:
     return OPS_FULL.index(op)
 
@@ -542,6 +555,7 @@ def run(tier: str, only=None) -> core.Result:
     cfgs = [{"part": "grid", "year": y} for y in range(YEARS[0], YEARS[1] + 1)] + [{"part": "specials"}]
     out = explorer.explore(RUN, cfgs)
     sched.absorb(res, "a-decision-function-date-grid", RUN, out, cfgs)
+    samples = _pick("a-decision-function-date-grid", cfgs)
     ga = res.parts["a-decision-function-date-grid"]["counters"]
     switches = sorted(k for k in ga if k.startswith("switch@"))
     if not res.violations and (ga.get("switches") != 1 or switches != ["switch@" + CUTOFF]):
@@ -558,6 +572,7 @@ def run(tier: str, only=None) -> core.Result:
     cfgs = [{"part": "seq", "prefix": list(p), "last": "small"} for p in itertools.product(small_idx, repeat=depth - 1)]
     out = explorer.explore(RUN, cfgs)
     sched.absorb(res, f"b-sequences-depth{depth}-batches-le2", RUN, out, cfgs)
+    samples += _pick(f"b-sequences-depth{depth}-batches-le2", cfgs)
     if tier == "quick":
         cfgs = [{"part": "seq", "prefix": [a], "last": "full"} for a in full_idx]
         name = "b-sequences-depth2-batches-le4"
@@ -566,14 +581,17 @@ def run(tier: str, only=None) -> core.Result:
         name = "b-sequences-depth3-first-le2-then-le4"
     out = explorer.explore(RUN, cfgs)
     sched.absorb(res, name, RUN, out, cfgs)
+    samples += _pick(name, cfgs)
 
     # (c) handshake and invalid forms
     cfgs = [{"part": "handshake", "preferred": p, "answer": a} for p in range(3) for a in range(3)]
     out = explorer.explore(RUN, cfgs)
     sched.absorb(res, "c-real-handshake-then-batch", RUN, out, cfgs)
+    samples += _pick("c-real-handshake-then-batch", cfgs)
     cfgs = [{"part": "forms", "form": i, "version": v} for i in range(len(INVALID_FORMS)) for v in [None] + VERSIONS]
     out = explorer.explore(RUN, cfgs)
     sched.absorb(res, "c-invalid-member-forms", RUN, out, cfgs)
+    samples += _pick("c-invalid-member-forms", cfgs)
 
     cnt: Dict[str, int] = {}
     for pname, p in res.parts.items():
